@@ -87,10 +87,7 @@ def construction_family(res, tier):
 def extras(res, tier):
     from .. import bigops
 
-    v1, c1 = construction_family(res, tier)
-    v2, c2 = bigops.family(res, tier, "C07")
-    c1.update(c2)
-    return v1 + v2, c1
+    return [construction_family] + bigops.parts("C07")
 
 
 def main(tier, all_violations=False, t0=None):
